@@ -626,6 +626,17 @@ func (sdb *DbSqlite) edgePoints(nodeID, parentID string, points data.Points) err
 	if len(edges) <= 0 {
 		newEdge = true
 		edge.ID = uuid.New().String()
+
+		// a node can't be its own ancestor
+		cycle, err := sdb.isUpstream(tx, nodeID, parentID, make(map[string]bool))
+		if err != nil {
+			rollback()
+			return err
+		}
+		if cycle {
+			rollback()
+			return fmt.Errorf("Error: node %v is upstream of %v, can't create a loop", nodeID, parentID)
+		}
 	} else {
 		edge = edges[0]
 	}
@@ -846,6 +857,47 @@ NextPin:
 	}
 
 	return nil
+}
+
+// isUpstream returns true if id is start, or is found walking up from start
+// (through deleted edges as well)
+func (sdb *DbSqlite) isUpstream(tx *sql.Tx, id, start string, visited map[string]bool) (bool, error) {
+	if start == id {
+		return true, nil
+	}
+
+	if visited[start] {
+		return false, nil
+	}
+	visited[start] = true
+
+	rows, err := tx.Query("SELECT up FROM edges WHERE down=?", start)
+	if err != nil {
+		return false, err
+	}
+	defer rows.Close()
+
+	var ups []string
+	for rows.Next() {
+		var up string
+		if err := rows.Scan(&up); err != nil {
+			return false, err
+		}
+		ups = append(ups, up)
+	}
+
+	if err := rows.Close(); err != nil {
+		return false, err
+	}
+
+	for _, up := range ups {
+		found, err := sdb.isUpstream(tx, id, up, visited)
+		if err != nil || found {
+			return found, err
+		}
+	}
+
+	return false, nil
 }
 
 func (sdb *DbSqlite) updateHash(tx *sql.Tx, id string, hashUpdate uint32) error {
